@@ -97,7 +97,8 @@ def table_fp(df):
     vals = []
     for c in df.columns:
         vals.extend(float(x) for x in df[c].values)
-    return (int(h[:7], 16) + tt.col_fp(vals) + 31 * len(df)) % 1073741789
+    idx = hashlib.sha1(repr(list(df.index)).encode()).hexdigest()          # and its row labels: 'exactly the table'
+    return (int(h[:7], 16) + int(idx[:7], 16) + tt.col_fp(vals) + 31 * len(df)) % 1073741789
 
 
 def make_sigs(rng, shape, fs=64, n=160):
@@ -308,7 +309,7 @@ def run_3d(sigs, fs, f_range, kwargs, axis, n_jobs, delays, logdir, via_group=Fa
     keys = {sig_key(s): k + 1 for k, s in enumerate(tasks)}
     json.dump({sig_key(s): float(d) for s, d in zip(tasks, delays)}, open(os.path.join(logdir, 'delays.json'), 'w'))
     os.environ['BYCVERIF_POOL_LOG'] = logdir
-    raised, out, models, rmodels, rexpected, rheld = '', [], [], [], [], []
+    raised, out, models, rmodels, rexpected, rheld, container_ok = '', [], [], [], [], [], True
     try:
         with warnings.catch_warnings():
             warnings.simplefilter('ignore')
@@ -331,6 +332,7 @@ def run_3d(sigs, fs, f_range, kwargs, axis, n_jobs, delays, logdir, via_group=Fa
                 else:
                     res = compute_features_3d(sigs, fs, f_range, compute_features_kwargs=kwargs, axis=axis, n_jobs=n_jobs, progress=progress)
                     out = [[table_fp(d) for d in row] for row in res]
+                container_ok = isinstance(res, list) and all(isinstance(r, list) for r in res)
     except PoolTimeout:
         raise
     except Exception as ex:
@@ -338,7 +340,7 @@ def run_3d(sigs, fs, f_range, kwargs, axis, n_jobs, delays, logdir, via_group=Fa
     finally:
         os.environ.pop('BYCVERIF_POOL_LOG', None)
     logs, realised = read_logs(logdir, keys)
-    return {'mode': mode, 'T': len(tasks), 'n0': n0, 'n1': n1, 'out': out, 'models': models, 'rmodels': rmodels, 'rexpected': rexpected, 'rheld': rheld, 'logs': logs or [[]], 'raised': raised,
+    return {'mode': mode, 'T': len(tasks), 'n0': n0, 'n1': n1, 'nested_list': bool(container_ok), 'out': out, 'models': models, 'rmodels': rmodels, 'rexpected': rexpected, 'rheld': rheld, 'logs': logs or [[]], 'raised': raised,
             'check_schedule': bool(logs) and not raised}, realised
 
 
